@@ -467,7 +467,7 @@ func rtCase(w *vf.Worker, p *parsed, fam string, s stream) {
 	}
 
 	if v.std != "" && inDom {
-		stdCase(w, p, s, t1)
+		stdCase(w, p, fam, s, t1)
 	}
 }
 
@@ -518,7 +518,7 @@ func rowsLabel(exp, got [][]string) string {
 	return "none"
 }
 
-func stdCase(w *vf.Worker, p *parsed, s stream, t1 string) {
+func stdCase(w *vf.Worker, p *parsed, fam string, s stream, t1 string) {
 	v := &p.v
 	flags := strings.Join(v.flags, " ")
 	foreign := func(style string, text string) {
@@ -563,12 +563,24 @@ func stdCase(w *vf.Worker, p *parsed, s stream, t1 string) {
 				}
 			}
 		}
+		// Quoting styles: every subset of the optionally-quoted cells when there
+		// are few of them, else none / all / each single cell quoted (and, in the
+		// thorough tier, each single cell unquoted); wide records: none / all.
 		maxBits := 8
 		if w.Quick() {
-			maxBits = 4
+			maxBits = 3
 		}
-		var masks []map[cellRef]bool
-		if len(optional) <= maxBits {
+		wide := strings.HasPrefix(fam, "wide")
+		type maskT struct {
+			m    map[cellRef]bool
+			full bool // run with every line-ending style
+		}
+		var masks []maskT
+		all := map[cellRef]bool{}
+		for _, cr := range optional {
+			all[cr] = true
+		}
+		if len(optional) <= maxBits && !wide {
 			for m := 0; m < 1<<len(optional); m++ {
 				mk := map[cellRef]bool{}
 				for b, cr := range optional {
@@ -576,31 +588,35 @@ func stdCase(w *vf.Worker, p *parsed, s stream, t1 string) {
 						mk[cr] = true
 					}
 				}
-				masks = append(masks, mk)
+				masks = append(masks, maskT{mk, len(mk) == 0 || len(mk) == len(optional)})
 			}
 		} else {
-			all := map[cellRef]bool{}
-			for _, cr := range optional {
-				all[cr] = true
-			}
-			masks = append(masks, map[cellRef]bool{}, all)
-			for _, cr := range optional {
-				masks = append(masks, map[cellRef]bool{cr: true})
-				mk := map[cellRef]bool{}
-				for _, o := range optional {
-					if o != cr {
-						mk[o] = true
+			masks = append(masks, maskT{map[cellRef]bool{}, true}, maskT{all, true})
+			if !wide {
+				for _, cr := range optional {
+					masks = append(masks, maskT{map[cellRef]bool{cr: true}, false})
+					if !w.Quick() {
+						mk := map[cellRef]bool{}
+						for _, o := range optional {
+							if o != cr {
+								mk[o] = true
+							}
+						}
+						masks = append(masks, maskT{mk, false})
 					}
 				}
-				masks = append(masks, mk)
 			}
 			w.Count("std|csv|quoting-subsets-reduced", 1)
 		}
 		last := exp[len(exp)-1]
-		for mi, mk := range masks {
+		for _, mt := range masks {
+			mk := mt.m
 			quoted := func(r, c int) bool { return must[cellRef{r, c}] || mk[cellRef{r, c}] }
 			for _, eol := range []string{"\n", "\r\n"} {
 				for _, fin := range []bool{true, false} {
+					if !mt.full && w.Quick() && (eol == "\n") != fin {
+						continue // partial masks in the quick tier: LF with final newline, CRLF without
+					}
 					if !fin && len(last) == 1 && last[0] == "" && !quoted(len(exp)-1, 0) {
 						continue // an empty last line without terminator is not a record
 					}
@@ -619,7 +635,6 @@ func stdCase(w *vf.Worker, p *parsed, s stream, t1 string) {
 					default:
 						style += "-someq"
 					}
-					_ = mi
 					foreign(style, csvRender(exp, comma, eol, fin, quoted))
 				}
 			}
@@ -871,6 +886,7 @@ func chunkWorker(w *vf.Worker) {
 		}
 	}
 	w.Sample(map[string]any{"chunking": []string{"\xef", "\xbb\xbfa,b\n1", ",2\n"}, "variant": "csv"})
+	reportTimes(w)
 }
 
 // ---------------------------------------------------------------- bind worker
@@ -1001,6 +1017,10 @@ func hasNumberLike(s stream) bool {
 // ---------------------------------------------------------------- orchestrator
 
 func run(c *vf.Ctx) {
+	if os.Getenv("VERIF_C01_BENCH") != "" {
+		bench()
+		return
+	}
 	quick := c.Quick()
 	vs := selectedVariants(quick)
 	maxLen := 3
@@ -1064,6 +1084,7 @@ func run(c *vf.Ctx) {
 	outcome := map[string]int64{}
 	std := map[string]int64{}
 	chunk := map[string]int64{}
+	times := map[string]int64{}
 	for k, n := range c.Counters {
 		f := strings.Split(k, "|")
 		switch f[0] {
@@ -1099,6 +1120,9 @@ func run(c *vf.Ctx) {
 		case "chunk", "bind":
 			chunk[strings.Join(f, " ")] += n
 			delete(c.Counters, k)
+		case "time":
+			times[strings.Join(f[1:], " ")] += n
+			delete(c.Counters, k)
 		}
 	}
 	c.Extra["domain_inside_per_variant"] = domIn
@@ -1109,6 +1133,7 @@ func run(c *vf.Ctx) {
 	c.Extra["outcomes"] = outcome
 	c.Extra["standard_dialect_texts"] = std
 	c.Extra["chunking_and_binding"] = chunk
+	c.Extra["informational_cpu_time_in_miller_calls"] = times
 	// vacuity: every symbol must have been exercised inside the domain of at least one format, in keys and in values
 	var never []string
 	for _, sy := range append(append([]string{}, sigma...), "") {
